@@ -38,9 +38,13 @@ impl SimulationBoundary {
             HalfSpace::new(DVec3::NEG_Z, anchor + width, None, None),
         ];
 
+        // The integer grid must cover the *closed* range [anchor - width, anchor + 2 * width]:
+        // the mirror image (through the far wall) of a generator lying exactly on the near
+        // wall is anchor + 2 * width. Use a slightly larger domain, so that both ends map
+        // strictly inside [1, 2).
         Self {
-            anchor: anchor - width,
-            inverse_width: 1. / (3. * width),
+            anchor: anchor - 1.5 * width,
+            inverse_width: 1. / (4. * width),
             dimensionality,
             clipping_planes,
         }
